@@ -355,7 +355,8 @@ class Adapter:
                 key = (cls, c.get("rep"))
                 n = self.counts.get(key, 0)
                 self.counts[key] = n + 1
-                if n == c.get("nth", 0):
+                # a corruption addressed to a LISTED segment names its URL; the others count requests
+                if (url == c["target_url"]) if "target_url" in c else (n == c.get("nth", 0)):
                     try:
                         data, info = apply_corruption(c, data)
                         self.applied = {"url": url, "exchange": len(self.exchanges), **info}
@@ -390,7 +391,19 @@ def snap_segment(ms) -> dict:
             "exp_dur": num(ms.expected_duration), "tol": int(ms.tolerance // 1), "pto": int(ms.presentation_time_offset),
             "validated": bool(ms.validated), "seq": num(ms.seg_num), "dt": num(ms.decode_time),
             "dur": num(ms.duration), "next_dt": num(ms.next_decode_time),
+            "avail_start_us": _dt_us(ms.availability_start_time), "avail_end_us": _dt_us(ms.availability_end_time),
             "errors": _own_errors(ms)}
+
+
+_EPOCH = datetime.datetime(1970, 1, 1, tzinfo=datetime.timezone.utc)
+
+
+def _dt_us(dt) -> Optional[int]:
+    if dt is None:
+        return None
+    if dt.tzinfo is None:
+        dt = dt.replace(tzinfo=datetime.timezone.utc)
+    return _td_us(dt - _EPOCH)
 
 
 def snap_rep(rep) -> dict:
@@ -419,6 +432,7 @@ def snap_rep(rep) -> dict:
         "timeline": tl, "frame_rate": fr,
         "target_us": None if rep.target_duration is None else _td_us(rep.target_duration),
         "mime": rep.mimeType,
+        "period_ast_us": _dt_us(rep.period.availability_start_time()) if rep.mode == "live" else None,
         "inband": sorted({(ev.schemeIdUri, ev.value) for ev in list(rep.event_streams) + list(rep.parent.event_streams)
                           if type(ev).__name__ == "InbandEventStream"}),
         "segments": [snap_segment(ms) for ms in rep.media_segments],
@@ -477,6 +491,9 @@ class Result:
     report_obs: list = dataclasses.field(default_factory=list)
     final_ids: list = dataclasses.field(default_factory=list)
     final_has_errors: Optional[bool] = None
+    # a corruption addressed to a listed segment that the validator had not requested by the end of the first
+    # pass: what the SERVER answers for that URL at that instant (the segment is offered or not)
+    unexamined: Optional[dict] = None
 
     def has_errors(self) -> bool:
         return bool(self.errors)
@@ -538,6 +555,13 @@ async def _session(app, case: Case, clock, res: Result, wall_limit: float):
                 post = snap_manifest(dv)
                 top = observe("validate")        # the errors the validator itself gained in this pass
                 res.passes.append({"pre": pre, "post": post, "now": clock.now.isoformat(), "top_errors": top})
+                tgt = (case.corruption or {}).get("target_url")
+                if tgt and len(res.passes) == 1 and adapter.applied is None:
+                    m_ = re.match(r"^https?://[^/]+(/.*)$", tgt)
+                    pr = adapter.client.get(m_.group(1) if m_ else tgt)
+                    res.unexamined = {"url": tgt, "status": pr.status_code, "now": clock.now.isoformat(),
+                                      "given_up": any(sg["url"] == tgt and sg["validated"]
+                                                      for r_ in post["reps"] for sg in r_["segments"])}
                 if prev_info is not None and dv.manifest is not None:
                     m = dv.manifest
                     res.refresh_checks.append({
